@@ -56,9 +56,13 @@ def build(d):
     if k == "I":
         return pba.I(d[1], d[2])
     if k == "N":
-        return {"int": int, "float": float, "np": np.float64, "npint": np.int64}[d[2]](d[1])
+        from fractions import Fraction as _Fr
+        return {"int": int, "float": float, "np": np.float64, "npint": np.int64, "f32": np.float32, "f16": np.float16,
+                "longdouble": np.longdouble, "frac": lambda v: _Fr(v)}[d[2]](d[1])
     if k == "P":
         return pbx.stair(unrle(d[1]), unrle(d[2]))
+    if k == "P32":      # float32 bound arrays
+        return pbx.Staircase()(left=np.array(unrle(d[1]), dtype=np.float32), right=np.array(unrle(d[2]), dtype=np.float32))
     if k == "Pi":       # integer-dtype p-box built from Python int lists
         return pbx.Staircase()(left=[int(v) for v in unrle(d[1])], right=[int(v) for v in unrle(d[2])])
     if k == "L":
@@ -90,7 +94,7 @@ def bounds_of(d, obj):
         return [float(d[1])] * N, [float(d[2])] * N
     if k == "N":
         return [float(d[1])] * N, [float(d[1])] * N
-    if k in ("P", "L", "Pi"):
+    if k in ("P", "L", "Pi", "P32"):
         return [float(v) for v in obj.left], [float(v) for v in obj.right]
     if k in ("D", "S", "SM"):
         p = obj.to_pbox()
@@ -151,7 +155,7 @@ def snap(d, obj):
     k = d[0]
     if k == "I":
         return (float(obj.lo), float(obj.hi))
-    if k in ("P", "L", "Pi"):
+    if k in ("P", "L", "Pi", "P32"):
         return (tuple(float(v) for v in obj.left), tuple(float(v) for v in obj.right))
     if k in ("S", "SM"):
         return (tuple(float(v) for v in np.ravel(obj.intervals.lo)), tuple(float(v) for v in np.ravel(obj.intervals.hi)),
@@ -573,6 +577,14 @@ def seq_families(ctx):
         ("extreme", [["N", -0.0, "np"], ["I", -1, 0]]),
         ("extreme", [["I", 0, 0], ["I", -0.0, 0.0], ["I", 0, 1]]),
     ]
+    # numeric types: the result must be the float64 computation of the same values
+    fams += [
+        ("extreme", [["N", 2.5, "f32"], ["I", 0, 1], ["N", 0.75, "f16"]]),
+        ("extreme", [["N", 2 ** 60, "int"], ["I", 0, 1]]),
+        ("extreme", [["N", 2.5, "frac"], ["N", 2.5, "longdouble"], ["I", 2, 3]]),
+        ("extreme", [["P32", [[1, 120], [1.5, 80]], [[3, 60], [3.25, 140]]], ["I", 1.25, 2], ["N", 1.75, "f32"]]),
+        ("extreme", [["P32", [[1, 200]], [[3, 200]]], ["P", [[0.5, 200]], [[2.5, 200]]]]),
+    ]
     tiny = [[1e-9, 100], [4e-9, 100]]
     fams += [
         ("extreme", [["I", 2e-9, 8e-9], ["N", 5e-9, "float"]]),
@@ -621,6 +633,7 @@ def kinds(ops):
 
 
 def run(ctx: core.Check):
+    global N
     core.stub_moments()
     ctx.rule = ("families of 0..5 operands of mixed Python kinds (scalar Interval, int/float/numpy number, Staircase, library p-box, "
                 "Distribution, Dempster-Shafer structure, foreign object, non-finite number): every 1- and 2-family of an 18-operand grid pool, "
@@ -636,7 +649,12 @@ def run(ctx: core.Check):
                 "element, steps-2 / steps-1 / steps / steps+1 focal elements, library mixtures of DS structures — judged against a p-box computed "
                 "in the harness from the focal elements and masses; scaled stream: exact families at 2^-30, 2^-70, 1e-19, 1e-170, 2^36, 1e17, 1e150; "
                 "falsy operands (0, -0.0, [0,0]); interactions: operands copied / deep-copied / pickled / rebuilt from their structures, results "
-                "fed back as operands, calls inside `with dependency(...)`. Non-trivial = at least two operands that are not all equal; distinct on the operand descriptions.")
+                "fed back as operands, calls inside `with dependency(...)`. Global state: families of every operand kind built and aggregated under "
+                "Params.steps = 100 / 300 (40, 400 thorough; set, used, restored in a finally) must have that many steps and be the step-wise "
+                "join / meet there (also tied to the model at that step count), the default-grid families are re-evaluated afterwards; the same "
+                "calls under np.errstate(all='raise') + warnings-as-errors give the same value or raise. Aliasing: operands built from the "
+                "caller's float64 buffers; results share no memory with them and keep their value when they are overwritten. Numeric types: "
+                "float16 / float32 / longdouble / Fraction / 2**60 numbers and float32 p-boxes. Non-trivial = at least two operands that are not all equal; distinct on the operand descriptions.")
     ctx.assumptions = ["bounds of Distribution / DempsterShafer operands are taken from their own to_pbox() (C08 / C09 are about those)",
                        "moments are stubbed in the harness process (C04's concern); output_type other than 'pbox' is not exercised",
                        "vector Intervals and sample-based Distribution objects are outside the modelled operand kinds"]
@@ -975,6 +993,101 @@ def run(ctx: core.Check):
                              {**cdesc, "call": which, "dependency": dep, "first": js(first[(fi, which)]), "impl": js(r)},
                              f"{which} inside `with dependency('{dep}')` differs from the call outside")
 
+    # ---- global state (P ii): the public discretisation changed, used and restored.  Everything is built under the changed
+    #      grid; results must have that many steps and be the step-wise join / meet there.  The families of the default grid
+    #      are re-evaluated afterwards (next block) and must reproduce their first results --------------------------------------
+    from pyuncertainnumber.pba.params import Params
+    from pyuncertainnumber.pba.context import get_current_dependency
+    for n_ in ((100, 300) if ctx.tier != "thorough" else (100, 300, 40, 400)):
+        saved = (Params.steps, Params.p_values, N)
+        try:
+            Params.steps = n_
+            Params.p_values = np.linspace(Params.p_lboundary, Params.p_hboundary, n_)
+            N = n_
+            gf = grid_families(ctx, ctx.scale(8, 60))
+            greqs, gmeta = [], []
+            for ops in gf:
+                objs = [build(d) for d in ops]
+                bnds = [bounds_of(d, o) for d, o in zip(ops, objs)]
+                obnds = [ds_ref_bounds(d, o, b)[0] if d[0] in ("S", "SM") else b for d, o, b in zip(ops, objs, bnds)]
+                re_, ri_ = compact_oracle(ctx, "steps", ops, objs, obnds, n_, envelope, imposition, convert, {"steps": n_})
+                if re_ is not None:
+                    toks = " ".join(wire_op(d, b) for d, b in zip(ops, bnds))
+                    greqs += [f"envelope {n_} - {toks}", f"imposition {n_} - {toks}"]
+                    gmeta += [(ops, "envelope", re_), (ops, "imposition", ri_)]
+            for (ops, which, impl), rep in zip(gmeta, core.model_batch("C11", greqs)):
+                mod = parse_res(rep)
+                if same(impl, mod):
+                    ctx.tie_ok()
+                else:
+                    ctx.tie_bad("steps", {"operands": ops, "call": which, "steps": n_}, js(impl), js(mod))
+        finally:
+            Params.steps, Params.p_values, N = saved
+
+    # ---- global state (P i): floating-point errors raised and warnings escalated — the same value, or an exception; never
+    #      another value; the ambient state is left as it was ----------------------------------------------------------------
+    for fi in inter:
+        stream, ops, objs, bnds, perms = built[fi]
+        if any(b is None for b in bnds) or not ops:
+            continue
+        if objs is None:
+            objs = [build(d) for d in ops]
+        dep0 = get_current_dependency()
+        for which, fn in (("envelope", envelope), ("imposition", imposition)):
+            r = call_strict(fn, *objs)
+            ctx.count(("strict", which, json.dumps(ops)), True, "errstate-raise")
+            if r != first[(fi, which)] and r[0] != "err":
+                ctx.fail({"k": len(ops), "kinds": kinds(ops), "stream": stream.split("-")[0], "call": which, "check": "strict-fp"},
+                         {"stream": stream, "operands": ops, "call": which, "first": js(first[(fi, which)]), "impl": js(r)},
+                         f"{which} under np.errstate(all='raise') and warnings-as-errors returns a different value than under the defaults")
+        if (Params.steps, len(Params.p_values)) != (200, 200) or get_current_dependency() != dep0:
+            ctx.fail({"k": len(ops), "kinds": kinds(ops), "stream": stream.split("-")[0], "call": "any", "check": "ambient-state"},
+                     {"stream": stream, "operands": ops}, "Params or the dependency context changed during envelope / imposition")
+
+    # ---- caller-visible aliasing (Q): operands built from the caller's float64 buffers of exactly N steps; for two or more
+    #      operands the result shares no memory with an operand or a buffer, and keeps its value when those are overwritten ----
+    for t in range(ctx.scale(12, 120)):
+        k = ctx.rng.choice([2, 2, 3])
+        ops = [o for o in fam_core(ctx.rng, k, quarter=False)[0]]
+        ops = [o if o[0] == "P" else box_around(ctx.rng, [float(lo_of(o))] * N, [float(lo_of(o)) + 1] * N) for o in ops]
+        bufs = [(np.array(unrle(o[1]), dtype=float), np.array(unrle(o[2]), dtype=float)) for o in ops]
+        if t % 2 == 0:      # one operand that already IS the join, one that already IS the meet (when it exists): returning it is aliasing
+            jl, jr = np.min([b[0] for b in bufs], axis=0), np.max([b[1] for b in bufs], axis=0)
+            ml, mr = np.max([b[0] for b in bufs], axis=0), np.min([b[1] for b in bufs], axis=0)
+            bufs.insert(t % 3 % (len(bufs) + 1), (jl.copy(), jr.copy()))
+            if np.all(ml <= mr):
+                bufs.append((ml.copy(), mr.copy()))
+            ops = [["P", rle(bl), rle(br)] for bl, br in bufs]
+            k = len(ops)
+        objs = [pbx.Staircase()(left=bl, right=br) for bl, br in bufs]
+        bnds = [([float(v) for v in bl], [float(v) for v in br]) for bl, br in bufs]
+        for which, fn in (("envelope", envelope), ("imposition", imposition)):
+            robj, r0 = call_obj(fn, *objs)
+            ctx.count(("aliasing", which, t), True, "aliasing")
+            if robj is None:
+                continue
+            feat = {"k": k, "kinds": kinds(ops), "stream": "aliasing", "call": which}
+            cdesc = {"stream": "aliasing", "operands": ops, "call": which}
+            shared = any(robj is o or np.shares_memory(robj.left, a) or np.shares_memory(robj.right, a)
+                         for o, (bl, br) in zip(objs, bufs) for a in (o.left, o.right, bl, br))
+            if shared:
+                ctx.fail({**feat, "check": "shares-memory"}, cdesc, f"the result of {which} shares memory with an operand or the caller's buffer")
+            want = (("ok", [min(c) for c in zip(*[b[0] for b in bnds])], [max(c) for c in zip(*[b[1] for b in bnds])]) if which == "envelope"
+                    else ("ok", [max(c) for c in zip(*[b[0] for b in bnds])], [min(c) for c in zip(*[b[1] for b in bnds])]))
+            if r0 != want and not (which == "imposition"):
+                ctx.fail({**feat, "check": "step-wise"}, {**cdesc, "impl": js(r0)}, "envelope of operands built from caller buffers is not the step-wise join")
+            for (bl, br), o in zip(bufs, objs):
+                bl += 5.0
+                br[:] = br + 7.0
+                o.left[:] = o.left - 3.0
+                o.right[:] = o.right + 3.0
+            r1 = canon(robj)
+            if r1 != r0:
+                ctx.fail({**feat, "check": "result-follows-operand"}, {**cdesc, "when_produced": js(r0), "re_read": js(r1)},
+                         f"the result of {which} changed when the operands / the caller's buffers were overwritten afterwards")
+            for (bl, br), o, b in zip(bufs, objs, bnds):      # put the operands back for the second call
+                bl[:] = b[0]; br[:] = b[1]; o.left[:] = b[0]; o.right[:] = b[1]
+
     # ---- state carried between calls: re-read every kept result, re-evaluate a sample after all the unrelated calls --------
     recheck_kept()
     again = [fi for fi, b in enumerate(built) if b[0] in ("seq", "extreme", "near-equal", "dss")]
@@ -1028,6 +1141,108 @@ def _gen():
     return (f"ok: env left={t(r['env']['left'])} right={t(r['env']['right'])}; imp raises {r['imp']['exc']} if {r['imp']['quant']} "
             f"{t(r['imp']['guardL'])} {r['imp']['cmp']} {t(r['imp']['guardR'])}, left={t(r['imp']['left'])} right={t(r['imp']['right'])}; "
             f"envelope {r['envelope']}; imposition {r['imposition']}; hull lo={t(r['hull']['left'])} hi={t(r['hull']['right'])}")
+
+
+def call_strict(fn, *a):
+    """the call with floating-point errors raised and every warning escalated to an error"""
+    try:
+        with np.errstate(all="raise"), warnings.catch_warnings():
+            warnings.simplefilter("error")
+            return canon(fn(*a))
+    except BaseException as e:  # noqa
+        return ("err", core.err_kind(e))
+
+
+def compact_oracle(ctx, stream, ops, objs, bnds, n, envelope, imposition, convert, extra_feat):
+    """the property at a grid of n steps, judged on the implementation's results only (used under a changed discretisation
+    and in the aliasing stream): number of steps, envelope = step-wise (min left, max right), imposition raises iff some step
+    has max left > min right else = step-wise (max left, min right), listing orders agree, operands `in` the envelope,
+    imposition `in` every operand.  Returns the canonical (envelope, imposition) results."""
+    k = len(ops)
+    feat = {"k": k, "kinds": kinds(ops), "stream": stream, **extra_feat}
+    desc = {"stream": stream, "operands": ops, **extra_feat}
+    for d, o, b in zip(ops, objs, bnds):
+        if len(b[0]) != n or len(b[1]) != n:
+            ctx.fail({**feat, "call": "convert", "check": "steps"}, {**desc, "operand": d, "len": [len(b[0]), len(b[1])]},
+                     f"a converted {d[0]} operand has {len(b[0])} steps, the configured discretisation has {n}")
+            return None, None
+    Ls, Rs = [b[0] for b in bnds], [b[1] for b in bnds]
+    all_ivl = all(o[0] == "I" for o in ops)
+    orders = [list(p_) for p_ in itertools.permutations(range(k))] if k <= 3 else [list(range(k)), list(range(k - 1, -1, -1))]
+    out = []
+    for which, fn in (("envelope", envelope), ("imposition", imposition)):
+        res = [call(fn, *[objs[i] for i in od]) for od in orders]
+        r0 = res[0]
+        out.append(r0)
+        for od, r in zip(orders, res):
+            ctx.count((stream, which, json.dumps(ops), tuple(od), json.dumps(extra_feat)), k >= 2, stream)
+            if r != r0:
+                ctx.fail({**feat, "call": which, "check": "order"}, {**desc, "call": which, "order": od, "impl": js(r0), "impl_order": js(r)},
+                         f"{which}: listing order {od} gives a different result from the given order")
+                break
+        case = {**desc, "call": which, "impl": js(r0)}
+        if which == "envelope":
+            wL, wR = [min(c) for c in zip(*Ls)], [max(c) for c in zip(*Rs)]
+            if all_ivl:
+                if r0 != ("ivl", wL[0], wR[0]):
+                    ctx.fail({**feat, "call": which, "check": "hull"}, case, f"envelope of intervals is not their hull [{wL[0]}, {wR[0]}]")
+                continue
+            want = ("ok", wL, wR)
+        else:
+            bad = next((i for i, (c, e) in enumerate(zip(zip(*Ls), zip(*Rs))) if max(c) > min(e)), None)
+            if bad is not None:
+                if r0 != ("err", "Other"):
+                    ctx.fail({**feat, "call": which, "check": "must-raise"}, {**case, "step": bad},
+                             f"imposition did not raise its exception although the operands have no common value at step {bad}")
+                continue
+            want = ("ok", [max(c) for c in zip(*Ls)], [min(c) for c in zip(*Rs)])
+        if r0 != want:
+            if r0[0] != "ok":
+                what = f"{which} raised {r0[1]}" if r0[0] == "err" else f"{which} returned {r0[0]}"
+                ctx.fail({**feat, "call": which, "check": "raises", "symptom": "raises:" + str(r0[1])}, case, what)
+            elif len(r0[1]) != n or len(r0[2]) != n:
+                ctx.fail({**feat, "call": which, "check": "steps"}, {**case, "len": [len(r0[1]), len(r0[2])]},
+                         f"{which} has {len(r0[1])} steps, the operands and the configured discretisation have {n}")
+            else:
+                i = first_diff(r0[1], want[1])
+                side = "left" if i is not None else "right"
+                st = i if i is not None else first_diff(r0[2], want[2])
+                got, exp = (r0[1] if i is not None else r0[2])[st], (want[1] if i is not None else want[2])[st]
+                ctx.fail({**feat, "call": which, "check": "step-wise", "side": side}, {**case, "step": st, "got": got, "expected": exp},
+                         f"{which} is not the step-wise {'join' if which == 'envelope' else 'meet'} at a grid of {n} steps: {side} bound at "
+                         f"step {st} is {got}, the operands give {exp}")
+            continue
+        try:
+            R = fn(*objs)
+            for d, o in zip(ops, objs):
+                ok = (o in R) if which == "envelope" else (R in convert(o))
+                if not ok:
+                    ctx.fail({**feat, "call": "in", "check": "in-" + which, "symptom": "false-for-contained"}, {**case, "item": d},
+                             f"`in` is False for {'an operand and its envelope' if which == 'envelope' else 'the imposition and an operand'}")
+                    break
+        except BaseException as e:  # noqa
+            ctx.fail({**feat, "call": "in", "check": "in-" + which, "symptom": "raises:" + core.err_kind(e)}, case, "`in` raised " + type(e).__name__)
+    return out[0], out[1]
+
+
+def grid_families(ctx, n_fams):
+    """families for the CURRENT value of the module-level step count `N` (generators read it)"""
+    rng = ctx.rng
+    fams = []
+    for j in (0, N // 2, N - 1):
+        a, b = one_step_disjoint(rng, j)
+        fams.append([a, b])
+    fams.append([["I", 2.5, 8.0], ["S", [[1, 5], [2, 6], [3, 7], [4, 9]], [.25, .25, .25, .25]], ["L", "uniform", [[0, 3], [7, 10]]]])
+    fams.append([["S", [[1, 5], [2, 3]], [.8, .2]], ["I", 2.5, 4], ["N", 3, "int"]])
+    fams.append([["D", "gaussian", [4, 2]], ["L", "min_max", [2, 9]], ["I", 3, 5]])
+    fams.append([["I", 0, 2], ["I", 1, 3], ["I", 2, 5]])
+    fams.append([["L", "normal", [[0, 1], [1, 2]]], ["N", 0.5, "np"]])
+    for _ in range(n_fams):
+        k = rng.choice([2, 2, 3, 4])
+        fams.append(fam_core(rng, k, quarter=rng.random() < .4)[0])
+    for _ in range(n_fams // 2):
+        fams.append([lib_operand(rng) for _ in range(rng.choice([2, 3]))])
+    return fams
 
 
 def replay(obj):
